@@ -439,6 +439,11 @@ writeloop:
 		switch i.t {
 		case TagRoot:
 			isOpenRoot := int(i.cur) > i.off
+			if len(stack) == 1 && !isOpenRoot {
+				// Closing root of the element this iterator is restricted to,
+				// as handed out by ParsedJson.ForEach. We are done.
+				break writeloop
+			}
 			if len(stack) > 1 {
 				if isOpenRoot {
 					return dst, errors.New("root tag open, but not at top of stack")
